@@ -118,7 +118,11 @@ func clashKinds() []clashKind {
 
 // addClash appends to file 0: struct Clash<tag> with colliding same-typed fields, a holder struct with defaults,
 // and constants (plain, list element, map value) that name only the later field, or all of them.
-func addClash(r *vl.Rng, p *idlgen.Program, tag int, count func(string)) {
+//
+// A literal that names two colliding fields and a literal that names only the later one are kept in different
+// programs (`both`): if a generator confuses the two Go names, the first shape is a duplicate key (loud, C01's),
+// the second a silent wrong value -- one program with both shapes would hide the second behind the first.
+func addClash(r *vl.Rng, p *idlgen.Program, tag int, both bool, count func(string)) {
 	pick := func(n int) int {
 		if r == nil {
 			return tag % n
@@ -159,11 +163,17 @@ func addClash(r *vl.Rng, p *idlgen.Program, tag int, count func(string)) {
 		all[i] = i
 	}
 	cname := func(s string) string { return fmt.Sprintf("KCLASH%d%s", tag, s) }
+	sel := func(later ...int) []int {
+		if both {
+			return all
+		}
+		return later
+	}
 	c1, _ := lit(last)
-	c2, _ := lit(all...)
-	c3, v3 := lit(last)
-	c4, v4 := lit(1)
-	c5, _ := lit(last)
+	c2, _ := lit(sel(1)...)
+	c3, v3 := lit(sel(last)...)
+	c4, v4 := lit(sel(1)...)
+	c5, _ := lit(sel(last)...)
 	c6, v6 := lit(last)
 	f0.Consts = append(f0.Consts,
 		cdef(cname("L"), tS, c1),
@@ -183,12 +193,13 @@ func addClash(r *vl.Rng, p *idlgen.Program, tag int, count func(string)) {
 		}
 	}
 	if count != nil {
-		count("clash.struct")
+		count(map[bool]string{false: "clash.struct.later_only", true: "clash.struct.all_named"}[both])
 	}
 }
 
-// catalogueClash: the aimed unit for colliding field names.
-func catalogueClash() *idlgen.Program {
+// catalogueClash: the aimed units for colliding field names; both=false: every literal names only the later of
+// two colliding fields; both=true: literals that name all of them.
+func catalogueClash(both bool) *idlgen.Program {
 	a := &idlgen.File{Path: "a.thrift", GoNS: "clash.pa"}
 	p := &idlgen.Program{Files: []*idlgen.File{a}}
 	i32, i64 := tb(idlgen.I32), tb(idlgen.I64)
@@ -201,9 +212,17 @@ func catalogueClash() *idlgen.Program {
 		return vR(vI(a1), vI(a2), vI(a3), vI(a4), n5, n6)
 	}
 	tL := tn(0, "Limits")
+	if both {
+		a.Consts = []*idlgen.ConstDef{
+			cdef("L2", tL, cM(lim(1, 2, 0, 0, vN(), vN()), cQ("max_conn"), cI("1", vI(1)), cQ("maxConn"), cI("2", vI(2)))),
+			cdef("L5", tL, cM(lim(0, 0, 6, 7, vS("a"), vS("b")), cQ("userID"), cI("7", vI(7)), cQ("user_id"), cI("6", vI(6)), cQ("name"), cQ("a"), cQ("Name"), cQ("b"))),
+		}
+		addClash(nil, p, 0, true, nil)
+		addClash(nil, p, 3, true, nil)
+		return p
+	}
 	a.Consts = []*idlgen.ConstDef{
 		cdef("L1", tL, cM(lim(0, 99, 0, 0, vN(), vN()), cQ("maxConn"), cI("99", vI(99)))),
-		cdef("L2", tL, cM(lim(1, 2, 0, 0, vN(), vN()), cQ("max_conn"), cI("1", vI(1)), cQ("maxConn"), cI("2", vI(2)))),
 		cdef("L3", tL, cM(lim(0, 0, 0, 7, vN(), vN()), cQ("userID"), cI("7", vI(7)))),
 		cdef("L4", tL, cM(lim(0, 0, 0, 0, vN(), vS("n")), cQ("Name"), cQ("n"))),
 		cdef("LL", tl(tL), cL(vL(lim(0, 3, 0, 0, vN(), vN())), cM(lim(0, 3, 0, 0, vN(), vN()), cQ("maxConn"), cI("3", vI(3))))),
@@ -212,9 +231,9 @@ func catalogueClash() *idlgen.Program {
 		fld(1, "l", rD, tL, cM(lim(0, 4, 0, 8, vN(), vN()), cQ("maxConn"), cI("4", vI(4)), cQ("userID"), cI("8", vI(8)))),
 		fld(2, "m", rD, tm(tb(idlgen.String), tL), cM(vM(vS("k"), lim(0, 0, 0, 9, vN(), vN())), cQ("k"), cM(lim(0, 0, 0, 9, vN(), vN()), cQ("userID"), cI("9", vI(9))))),
 	}})
-	addClash(nil, p, 0, nil)
-	addClash(nil, p, 1, nil)
-	addClash(nil, p, 3, nil)
+	addClash(nil, p, 0, false, nil)
+	addClash(nil, p, 1, false, nil)
+	addClash(nil, p, 3, false, nil)
 	return p
 }
 
